@@ -161,6 +161,8 @@ func zzPortsMenu(name string, k int) []netv1.NetworkPolicyPort {
 		return []netv1.NetworkPolicyPort{zzPortName(corev1.ProtocolTCP, "http")}
 	case 4:
 		return []netv1.NetworkPolicyPort{zzPortNum(corev1.ProtocolSCTP, zzPortVar(name+".s")), {Port: zzIntStrPtr(zzPortVar(name + ".t"))}}
+	case 5: // a second port name (no generated pod declares it)
+		return []netv1.NetworkPolicyPort{zzPortName(corev1.ProtocolTCP, "metrics")}
 	}
 	return nil
 }
